@@ -2,7 +2,8 @@
 
 Only the part of the property with a fault pattern in it is claimed: a recorder
 node stores an attitude sequence (the truth of a turning body) through a lossy
-link whose faults are *loss* (row -> NaN) and *signflip* (row -> -row); the
+link whose faults are *loss* (row -> NaN; a *torn* row loses only some of its four
+components) and *signflip* (row -> -row); the
 repair stage is the real QuaternionArray.slerp_nan / remove_jumps (and
 get_nan_intervals underneath).  SLERP geometry is checked on the endpoint pairs
 and weights the repair produces; arbitrary weight vectors in isolation are input
@@ -48,6 +49,16 @@ def record(scn):
     for i in scn['loss']:
         lossy[i] = np.nan
     return Q, sent, lossy
+
+
+def torn_components(scn, i):
+    """Which components of lost row i are NaN: all four, or (torn row) a seeded non-empty subset."""
+    if not scn.get('torn'):
+        return [0, 1, 2, 3]
+    r = random.Random(f"torn/{scn['torn']}/{i}")
+    if r.random() < 0.5:
+        return [0, 1, 2, 3]
+    return sorted(r.sample([0, 1, 2, 3], r.randint(1, 3)))
 
 
 class Check:
@@ -107,6 +118,8 @@ class Check:
                     for mask in masks:
                         out.append({'n': n, 'q0': [0.5, -0.5, 0.5, 0.5], 'w': [rate * x for x in axis], 'dt': 1.0, 'loss': mask, 'flips': flips,
                                     'flip_pattern': fl, 'rate': rate})
+                        if mask and fl in ('none', 'tail') and n <= 8:
+                            out.append(dict(out[-1], torn=n * 100 + len(out) % 97))       # same mask, some lost rows only torn
         return out
 
     def gen(self, seed, tier):
@@ -120,7 +133,7 @@ class Check:
             loss.update(range(s, min(n - 1, s + ln)))
         fl = rnd.choice(FLIPS)
         return {'n': n, 'q0': W.rand_unit(rnd, 4), 'w': [rate * x for x in W.rand_unit(rnd)], 'dt': 1.0, 'loss': sorted(loss),
-                'flips': self._flip_list(fl, n, rnd), 'flip_pattern': fl, 'rate': rate}
+                'flips': self._flip_list(fl, n, rnd), 'flip_pattern': fl, 'rate': rate, 'torn': rnd.choice([0, 0, rnd.randrange(1, 1 << 20)])}
 
     # ------------------------------------------------------------------
     def run(self, scn):
@@ -145,7 +158,8 @@ class Check:
         def build():
             qa = ahrs.QuaternionArray(sent.copy())
             for i in lost:
-                qa[i] = np.nan
+                for c in torn_components(scn, i):       # a torn row has lost only some of its components
+                    qa[i, c] = np.nan
             return qa
 
         # --- slerp_nan, both calling conventions
@@ -172,6 +186,12 @@ class Check:
                     if not (R[i].tobytes() == stored[i].tobytes() or R[i].tobytes() == (-stored[i]).tobytes()):
                         viol.append(v('slerp_nan', 'valid-row-changed', i, f'valid row {i} came back as {R[i]} (stored {stored[i]})'))
                         break
+                # consecutive valid rows of the repaired record must not be separated by a sign jump
+                if scn['rate'] < math.pi:
+                    for i in valid[:-1]:
+                        if i + 1 in set(valid) and float(R[i] @ R[i + 1]) < -1e-12:
+                            viol.append(v('slerp_nan', 'jump-left', i + 1, f'after slerp_nan the valid rows {i} and {i + 1} have dot product {float(R[i] @ R[i + 1]):.6f} (true consecutive rows are {scn["rate"]:.3g} rad of rotation apart)'))
+                            break
                 # gaps
                 gaps = []
                 for i in lost:
@@ -229,7 +249,7 @@ class Check:
         except Exception as e:          # noqa: BLE001
             viol.append(v('remove_jumps', f'crash:{type(e).__name__}', 0, f'{type(e).__name__}: {e}'))
         nontrivial = bool(lost) or bool(scn['flips'])
-        sig = f"{n}|{scn['rate']}|{scn.get('flip_pattern')}|{lost}|{scn['flips'] if scn.get('flip_pattern') == 'random' else ''}|{scn['q0'][0]:.6f}" if nontrivial else None
+        sig = f"{n}|{scn['rate']}|{scn.get('flip_pattern')}|{lost}|{scn.get('torn', 0)}|{scn['flips'] if scn.get('flip_pattern') == 'random' else ''}|{scn['q0'][0]:.6f}" if nontrivial else None
         log.add('viol', [(x['component'], x['symptom'], x['step']) for x in viol])
         return {'violations': viol, 'stats': stats, 'digest': log.digest(), 'sig': sig, 'sim_seconds': float(n) * scn['dt']}
 
